@@ -112,3 +112,28 @@ CMP = ['StringUtility_IsEqualCaseInsensitive', 'StringUtility_IsEqual']
 G('str.lemma_irreflexive', ['C19'], 'str', None, harness='h_lemma_irreflexive', replace=CMP, solver='cvc5', reach=[], timeout=600, stage2='OP2_BOUNDED=4', flags2=['--unwind', '6'], what='L19.1 over the comparator contract')
 G('str.lemma_incomparable', ['C19'], 'str', None, harness='h_lemma_incomparable_is_equal', replace=CMP, solver='cvc5', reach=[], timeout=600, stage2='OP2_BOUNDED=4', flags2=['--unwind', '6'], what='L19.3 incomparability <=> IsEqual; asymmetry')
 G('str.lemma_transitive', ['C19'], 'str', None, harness='h_lemma_transitive', replace=CMP, solver='cvc5', reach=[], timeout=600, stage2='OP2_BOUNDED=4', flags2=['--unwind', '6'], what='L19.2 transitivity')
+
+# ---- U-HUFF (C15, C04)
+def huff(fn, reach=None):
+    G('huff.' + fn, ['C15', 'C04'], 'huff', 'AdaptiveHuffmanTree_' + fn, reach=reach if reach is not None else ['normal exit', 'exceptional exit'],
+      what='any tree size (symbolic node count)')
+huff('VerifyNodeIndexInBounds'); huff('VerifyNodeDataInBounds'); huff('GetChildNode'); huff('IsLeaf'); huff('GetNodeData')
+huff('GetRootNodeIndex', reach=NOEXC); huff('TerminalNodeCount', reach=NOEXC)
+HUFF_REPLAY = {'driver': 'huff_replay.cpp', 'case': 'huff'}
+def huff_pi(T, tier, timeout=900):
+    uw = str(3 * T + 2)
+    common = dict(loop_contracts=False, flags=['--unwind', uw, '--unwinding-assertions'], tier=tier, timeout=timeout, pi='T=%d' % T, replay=HUFF_REPLAY)
+    G('huff.update_step.T%d' % T, ['C15', 'C04'], 'huff', None, harness='h_huff_update_step', defines=['OP2_T=%d' % T], reach=['normal exit', 'exceptional exit'],
+      what='PI(T=%d): from ANY well-formed tree: WF preserved, equals reference update, refusal leaves tree unchanged' % T, **common)
+    G('huff.encode_decode.T%d' % T, ['C15'], 'huff', None, harness='h_huff_encode_decode', defines=['OP2_T=%d' % T], reach=['normal exit'],
+      what='PI(T=%d): encoder bit string drives the decoder walk to the symbol leaf, from ANY well-formed tree' % T, **common)
+    G('huff.ctor.T%d' % T, ['C15'], 'huff', None, harness='h_huff_ctor', defines=['OP2_T=%d' % T], reach=['normal exit'],
+      what='constructor establishes WF (T=%d)' % T, **common)
+for T_ in (2, 3, 4): huff_pi(T_, 'quick')
+for T_ in (5, 6): huff_pi(T_, 'thorough', timeout=3600)
+G('huff.ctor.T314', ['C15', 'C04'], 'huff', None, harness='h_huff_ctor', defines=['OP2_T=314'], reach=['normal exit'], loop_contracts=False,
+  flags=['--unwind', '950', '--unwinding-assertions', '--max-field-sensitivity-array-size', '2000'], timeout=1800, no_standard_checks=True, what='constructor establishes WF for the 314-symbol tree the format uses (concrete execution inside CBMC; generated pointer checks off, WF of the result asserted)')
+G('huff.bounded314', ['C15', 'C04'], 'huff', None, harness='h_huff_bounded_from_initial', defines=['OP2_T=314', 'OP2_K=3'], reach=[], loop_contracts=False, tier='thorough',
+  flags=['--unwind', '950', '--unwinding-assertions', '--max-field-sensitivity-array-size', '2000'], timeout=3600, bounded='T=314, 3 updates with symbolic symbols from the initial tree', what='bounded stand-in for T=314')
+claim('C15', 'Inductive step proved from an ARBITRARY well-formed tree (so for all histories) for 2..4 symbols in the quick tier and 5..6 in the thorough tier: UpdateCodeCount preserves the representation invariant WF (full binary prefix code over exactly the symbol set, sibling property), its result equals an independent reference update (Okumura LZHUF), the encoder bit string drives the decoder walk to the symbol leaf, and an update beyond counter capacity or with an out-of-range symbol is refused leaving the tree unchanged. Leaf accessors (GetChildNode, IsLeaf, GetNodeData, Verify*) are proved by contract for any tree size. The constructor is proved to establish WF for T = 2..6 and for T = 314.',
+      'PI: the invariant step is proved per fixed symbol count T (loops fully unwound, unwinding assertions on); T = 314 inductive step is NOT decided (out of reach monolithically) - a bounded run (3 symbolic updates from the initial 314-symbol tree) stands in, labelled bounded. std::vector modelled as a view; allocation failure not modelled.')
